@@ -84,6 +84,12 @@ Theorem C16_char_index_mono : forall t i j,
 Proof. exact char_index_mono. Qed.
 Print Assumptions C16_char_index_mono.
 
+(** positions are monotone in the lexicographic order, across lines too *)
+Theorem C16_position_mono : forall t l c l' c',
+  pos_le l c l' c' -> position_to_utf8 t l c <= position_to_utf8 t l' c'.
+Proof. exact position_mono. Qed.
+Print Assumptions C16_position_mono.
+
 (** non-vacuity: the hypotheses are met by a text mixing 1-4 byte characters,
     LF and CRLF *)
 Example C16_hyps_inhabited :
